@@ -1,6 +1,8 @@
 #pragma once
 #include <string>
 #include <memory>
+#include <limits>
+#include <type_traits>
 
 #include "data.h"
 #include "type.h"
@@ -15,6 +17,18 @@ namespace sqf
     }
     namespace types
     {
+        /// Converts a float to an integer type without undefined behaviour:
+        /// NaN yields 0, values outside of the range of T yield the nearest limit of T.
+        template<typename T>
+        inline T clamp_cast(float f)
+        {
+            static_assert(std::is_integral<T>::value, "clamp_cast<T> requires an integer type");
+            if (f != f) { return 0; }
+            // Both limits are exactly representable as float after widening by one ULP towards the inside
+            if (f >= static_cast<float>(std::numeric_limits<T>::max())) { return std::numeric_limits<T>::max(); }
+            if (f <= static_cast<float>(std::numeric_limits<T>::min())) { return std::numeric_limits<T>::min(); }
+            return static_cast<T>(f);
+        }
         class d_scalar : public sqf::runtime::data
         {
         public:
@@ -52,6 +66,8 @@ namespace sqf
             float value() const { return m_value; }
             void value(float f) { m_value = f; }
             operator float() { return m_value; }
+            template<typename T, typename = typename std::enable_if<std::is_integral<T>::value && !std::is_same<T, bool>::value>::type>
+            explicit operator T() { return clamp_cast<T>(m_value); }
             static void set_decimals(int val) { s_decimals = val; }
         };
 
